@@ -10,6 +10,7 @@ import pickle
 import tempfile
 
 SLOTS = None
+PATHS = None  # shared count of the paths explored for the function currently being verified (all processes forked for it)
 TMP = None
 ENABLED = False
 CHILDREN: list = []
@@ -73,3 +74,17 @@ def child_exit(result):
     os.rename(os.path.join(TMP, f"{os.getpid()}.pkl.tmp"), os.path.join(TMP, f"{os.getpid()}.pkl"))
     SLOTS.release()
     os._exit(0)
+
+
+def new_path_counter():
+    """called where the exploration of ONE function starts; every process forked for that function inherits the counter"""
+    global PATHS
+    PATHS = mp.get_context("fork").Value("l", 0)
+
+
+def count_path():
+    if PATHS is None:
+        return 0
+    with PATHS.get_lock():
+        PATHS.value += 1
+        return PATHS.value
